@@ -102,6 +102,7 @@ func (f *Fetcher) FetchData(ctx context.Context) (Data, error) {
 	if len(f.data.Cookie) == 0 {
 		err := f.exchangeKeys(ctx)
 		if err != nil {
+			f.data = Data{}
 			return Data{}, err
 		}
 	}
